@@ -49,7 +49,7 @@ def preload():
 
 
 def cases(tier, seed):
-    n = 480 if tier == "quick" else 12000
+    n = 960 if tier == "quick" else 16000
     out = []
     for i in range(n):
         kind = KINDS[i % len(KINDS)]
